@@ -62,10 +62,15 @@ META = {
     "stats in {True, False, 0, 1, 2} with an oracle on the STATISTICS_* items (present iff asked; from level 0 equal to the source "
     "pixels' min / max / mean), spill_sz 0, TIFF predictor numbers 1 / 2 / 3.  Observations (not violations of the statement): "
     "statistics taken from an overview level count the right / bottom padding pixels when the array has no nodata; a band without "
-    "a valid pixel gets STATISTICS_* = '--' (numpy's masked constant).  NOT mirrored in the Lean model (inventory of the anchor "
-    "files): _tifffile._render_gdal_metadata / _stats_from_layer / _unwrap_stats (statistics values and XML text; only the XML LENGTH "
-    "enters, via patchedHdrSize), _fill_value, _pyramids_from_cog_metadata (overview resampling through odc.reproject), "
-    "geotiff_metadata beyond the transform tags (GeoKey directory, GDAL_NODATA / GDAL_METADATA text), cog_gbox, "
+    "a valid pixel gets STATISTICS_* = '--' (numpy's masked constant).  Third increment (Model/C05Meta.lean, Props/C05Meta.lean): the statistics XML text (_render_gdal_metadata with "
+    "Python's fixed-point formatting as reference semantics, validated each run: printed value within half a unit of the last place; "
+    "_unwrap_stats), cog_gbox, the pyramid plan of _pyramids_from_cog_metadata (level k+1 from level k onto the GeoBox of IFD k+1, chunked by "
+    "its tile: compared with the layers of the public dry run), Props/C05C15 (geotiff_metadata's call through the C15 trace model); the "
+    "GDAL_NODATA tag is read back with tifffile and must parse to the array's nodata.  NOT mirrored in the Lean model (inventory of "
+    "the anchor files): _stats_from_layer (which dask reductions are taken; the VALUES are judged by the statistics oracle with a "
+    "tolerance derived from dtype and pixel count), non-finite statistics (nan / inf / numpy's masked constant), _fill_value, the "
+    "resampling inside _pyramids_from_cog_metadata (odc.reproject), geotiff_metadata beyond the transform tags (GeoKey directory, the "
+    "TEXT of GDAL_NODATA / GDAL_METADATA as GDAL writes it), "
     "ODCExtensionDa.nodata (attrs['nodata'] then attrs['_FillValue'], as float: oracle only), the S3 branch (MultiPartUpload, "
     "ContentType, cleanup) and MPUFileSink (file-system side: exercised by the sink interleaving and stale-parts stages, no Lean "
     "model here — C18 owns it; the byte-stream machinery itself is C06).",
@@ -969,6 +974,16 @@ def e2e(cfg, workdir: str, tag: str, precomputed: bool = False, shared=None):
         page_shapes = [(p.imagelength, p.imagewidth) for p in pages]
         page_tiles = [(p.tilelength, p.tilewidth) for p in pages]
         tags = [(list(p.tags[324].value), list(p.tags[325].value)) for p in pages]
+        # GDAL_NODATA (42113) as an independent TIFF reader finds it: there exactly when the array has a nodata value, and its
+        # TEXT parses to that very number (the text itself is GDAL's; odc-geo hands it float(nodata))
+        t_nd = pages[0].tags.get(42113)
+        nd_txt = None if t_nd is None else str(t_nd.value).strip("\x00 ")
+        try:
+            nd_val = None if nd_txt is None else float(nd_txt)
+        except ValueError:
+            nd_val = "unparsable"
+        if nd_val == "unparsable" or not same_nodata(nd_val, None if cfg["nodata"] is None else float(cfg["nodata"])):
+            fails.append(("nodata-tag-differs", f"GDAL_NODATA tag text {nd_txt!r}, array nodata {cfg['nodata']!r}"))
         if cfg.get("dyadic", True):
             a_ = gbox.transform
             facts["geotags_line"] = "c05 geotags " + ";".join(frac_s(float(v)) for v in (a_.a, a_.b, a_.c, a_.d, a_.e, a_.f))
@@ -1098,7 +1113,12 @@ def e2e(cfg, workdir: str, tag: str, precomputed: bool = False, shared=None):
                     eps_ = float(np.finfo(want.dtype).eps) if want.dtype.kind == "f" else 0.0
                     slack = max(1e-6, 8 * eps_) * max(1.0, abs(lo_), abs(hi_)) + 1e-6
                     if lvl_ == 0 and not lossy and tol == 0:
-                        ok_st = abs(mn - lo_) <= slack and abs(mx - hi_) <= slack and abs(mean - float(valid.mean())) <= slack * 10
+                        # min / max are source values (printing error only); the mean is ACCUMULATED by numpy / dask in the source
+                        # precision, chunk by chunk: worst-case error of a pairwise / chunked float sum of n terms bounded by
+                        # (log2 n + chunks) * eps * max|x|, taken generously; integers are accumulated exactly (float64)
+                        n_ = max(int(valid.size), 2)
+                        mean_tol = slack + (16 + 4 * math.log2(n_)) * eps_ * max(abs(lo_), abs(hi_), 1.0)
+                        ok_st = abs(mn - lo_) <= slack and abs(mx - hi_) <= slack and abs(mean - float(valid.mean())) <= mean_tol
                     else:
                         # an overview level (nearest: a subset of the source pixels) — inside the source range; without a
                         # nodata value the right / bottom padding of the pyramid level (fill 0) is counted by the writer too
@@ -1812,6 +1832,68 @@ def run(R: Run):
             for m_, bag_ in zip(dry_["meta"].flatten(), dry_["tiles"]):
                 R.corr(f"c05 repart {m_.num_tiles}", lambda: str(bag_.npartitions), sig="opts|repartition|" + ("over20" if m_.num_tiles > 20 else "upto20"))
 
+    # ---- statistics metadata text, cog_gbox, the pyramid plan (Model/C05Meta.lean)
+    def rat_s(v):
+        return frac_s(float(v))
+
+    def dyadic():
+        return rng.choice([1, -1]) * rng.randint(0, 10**rng.randint(1, 12)) / 2.0**rng.randint(0, 30)
+
+    for _ in range(R.pick(300, 3000)):  # Python's own fixed-point formatting is the reference for `fmtFixed`
+        v_, p_, pad_ = rng.choice([dyadic(), dyadic(), rng.randint(-50, 50) / 8.0, rng.randint(-9, 9) + 0.5, -2.0**-40, 0.0]), rng.randint(0, 10), rng.choice([0, 0, 5, 12, 20])
+        R.corr(f"c05 fixed {rat_s(v_)} {p_} {pad_}", lambda: "|" + format(v_, f"{pad_}.{p_}f") + "|", sig="spec-float-format|" + ("tie" if (v_ * 10**p_ * 2) % 1 == 0 and (v_ * 10**p_) % 1 != 0 else "plain"))
+    if have("_render_gdal_metadata"):
+        KEYS = ["minimum", "maximum", "mean", "stddev", "valid_percent"]
+        for _ in range(R.pick(80, 800)):
+            nb_ = rng.randint(1, 4)
+            bands_ = [{k: rng.choice([dyadic(), float(rng.randint(0, 255)), 100.0]) for k in KEYS[: rng.randint(1, 5)]} for _ in range(nb_)]
+            prec_, pad_, eol_ = rng.choice([6, 6, 10, 0, 2]), rng.choice([0, 0, 14]), rng.choice(["", "", "\n"])
+            arg_ = bands_[0] if nb_ == 1 and rng.random() < 0.5 else bands_
+            R.corr(f"c05 rendermd {'+'.join(';'.join(f'{k}:{rat_s(v)}' for k, v in b.items()) for b in bands_)} {prec_} {pad_} {'N' if eol_ == '' else 'NL'}",
+                   lambda: T._render_gdal_metadata(arg_, precision=prec_, pad=pad_, eol=eol_).replace("\n", "\\n").replace(" ", "_"),  # pylint: disable=protected-access
+                   sig="opts|render_gdal_metadata|" + ("dict" if isinstance(arg_, dict) else f"{nb_}band"))
+    if have("_unwrap_stats"):
+        for _ in range(R.pick(60, 600)):
+            nb_ = rng.randint(1, 4)
+            keys_ = ["minimum", "maximum", "mean", "stddev", "valid_percent"][: rng.randint(1, 5)]
+            if rng.random() < 0.3:
+                st_ = {k: np.float64(dyadic()) for k in keys_}
+                R.corr(f"c05 unwrap {';'.join(f'{k}:[{rat_s(v)}]' for k, v in st_.items())} 2",
+                       lambda: ";".join(f"{k}:{rat_s(v)}" for k, v in T._unwrap_stats(st_, 2)[0].items()), sig="opts|unwrap_stats|2d")  # pylint: disable=protected-access
+            else:
+                st_ = {k: np.array([dyadic() for _ in range(nb_)]) for k in keys_}
+                R.corr(f"c05 unwrap {';'.join(k + ':' + list_s([rat_s(x) for x in v]) for k, v in st_.items())} 3",
+                       lambda: "+".join(";".join(f"{k}:{rat_s(v)}" for k, v in b.items()) for b in T._unwrap_stats(st_, 3)), sig="opts|unwrap_stats|nd")  # pylint: disable=protected-access
+    cog_gbox_ = getattr(S, "cog_gbox", None)
+    if cog_gbox_ is not None:
+        for _ in range(R.pick(300, 3000)):
+            y_, x_ = rng.choice([edge_dim(rng, 256), 1, 100, 257, 512, rng.randint(1, 5000)]), rng.choice([1, 7, 255, 256, 257, 1000, rng.randint(1, 3000)])
+            tile_ = rng.choice([None, None, 16, 100, 256, 512, (32, 64), (100, 16)])
+            nl_ = rng.choice([None, None, 0, 1, 3, 5])
+            gb_ = GeoBox((y_, x_), Affine(10, 0, 100, 0, -10, 200), "epsg:3857")
+
+            def f():
+                out_ = cog_gbox_(gb_, tile=tile_, nlevels=nl_)
+                if out_.affine != gb_.affine or out_.crs != gb_.crs:
+                    return "georeference-changed"
+                return f"{out_.shape[0]} {out_.shape[1]}"
+
+            R.corr(f"c05 coggbox {y_} {x_} {'N' if tile_ is None else (tile_ if isinstance(tile_, int) else f'{tile_[0]}x{tile_[1]}')} {opt_s(nl_)}", f,
+                   sig="cog_gbox|" + ("nlevels" if nl_ is not None else ("tile" if tile_ is not None else "default")))
+    # the pyramid handed to the tile compressors: level k+1 sits on the GeoBox of IFD k+1 (shape, affine) chunked by its tile
+    for _ in range(R.pick(12, 150)):
+        ny_, nx_ = rng.randint(17, 200), rng.randint(17, 200)
+        bl_ = [rng.choice([16, 32, (16, 48)]) for _ in range(rng.randint(1, 2))]
+        gb_ = GeoBox((ny_, nx_), Affine(rng.choice([1, 2, 0.5]), 0, rng.randint(-100, 100), 0, -rng.choice([1, 2, 0.5]), rng.randint(-100, 100)), "epsg:3857")
+        xx_ = wrap_xr(da_.zeros((ny_, nx_), dtype="uint8", chunks=(64, 64)), gb_)
+
+        def f():
+            dry_ = T.save_cog_with_dask(xx_, "", blocksize=list(bl_), compression="zstd", stats=False)
+            return "|".join(f"{k}>{l_.shape[0]},{l_.shape[1]},{l_.data.chunksize[0]},{l_.data.chunksize[1]},{aff_s(l_.odc.geobox.affine)}"
+                            for k, l_ in enumerate(dry_["layers"][1:]))
+
+        R.corr(f"c05 pyr {list_s([ny_, nx_])} {gbox_s(gb_)} {list_s(bl_, blk_s)}", f, sig="pyramid-plan|" + str(len(bl_)))
+
     # ---- tile padding in the block compressors (no encoder → raw bytes of the padded block)
     for _ in range(R.pick(150, 1500) if have("_cog_block_compressor_yxs", "_cog_block_compressor_syx") else 0):
         ty, tx = rng.choice([16, 32]), rng.choice([16, 32, 48])
@@ -1967,7 +2049,7 @@ def run(R: Run):
     workdir = tempfile.mkdtemp(prefix="c05-")
     try:
         n_e2e = R.pick(170, 4200)
-        t_budget = R.pick(22, 220)
+        t_budget = R.pick(22, 190)
         t0 = time.time()
         corpus = [
             dict(shape=[8, 200], axis="YX", ns=1, dtype="uint8", blocksize=[32], comp="deflate", predictor=None, nodata=None,
